@@ -104,12 +104,12 @@ func c19Generate(r *core.Run) []c19Exchange {
 		exs[len(exs)-1].CacheControl = len(exs)%2 == 0
 	}
 	if !r.Quick() {
-		for len(exs) < 3000 {
+		for len(exs) < 2400 {
 			rq, rs := 200+rng.Intn(60000), 200+rng.Intn(60000)
-			if rng.Intn(10) < 3 {
+			if rng.Intn(100) < 15 {
 				rq = c19Sizes[rng.Intn(len(c19Sizes))] + rng.Intn(3) - 1
 			}
-			if rng.Intn(10) < 3 {
+			if rng.Intn(100) < 15 {
 				rs = c19Sizes[rng.Intn(len(c19Sizes))] + rng.Intn(3) - 1
 			}
 			m := []string{"POST", "PUT", "GET", "DELETE"}[rng.Intn(4)]
@@ -201,7 +201,7 @@ func C19(r *core.Run) {
 			"nth": []int{1, 2}, "timeouts": true, "workers": 16}
 	}
 	const T = 45000
-	spec := map[string]interface{}{"mode": "c19", "t_ms": T, "conc": r.Pick(16, 24), "backends": c19Backends, "exchanges": exs, "blobs": blobs, "faults": faults}
+	spec := map[string]interface{}{"mode": "c19", "t_ms": T, "conc": 16, "backends": c19Backends, "exchanges": exs, "blobs": blobs, "faults": faults}
 	res := e3Run(r, bin, "c19", spec, time.Duration(r.Pick(300, 1200))*time.Second)
 
 	byTok := map[string]*c19Exchange{}
@@ -210,16 +210,16 @@ func C19(r *core.Run) {
 	}
 	var plans []*c19PlanRec
 	var hangRerun []c19Exchange
-	nEx, nBlob, exact, maxMs := 0, 0, 0, int64(0)
+	nEx, nBlob, exact, maxMs, maxClientMs := 0, 0, 0, int64(0), int64(0)
 	got504 := 0
 	for _, ln := range res.Lines {
 		var probe struct {
-			Ex         *string          `json:"ex"`
-			Blob       *int             `json:"blob"`
-			Plan       *string          `json:"plan"`
-			Poller     *string          `json:"poller"`
-			Discovered *int             `json:"discovered"`
-			Stats      map[string]int   `json:"exchange_stats"`
+			Ex         *string             `json:"ex"`
+			Blob       *int                `json:"blob"`
+			Plan       *string             `json:"plan"`
+			Poller     *string             `json:"poller"`
+			Discovered *int                `json:"discovered"`
+			Stats      map[string]int      `json:"exchange_stats"`
 			Sigs       map[string][]string `json:"sigs"`
 		}
 		if err := json.Unmarshal(ln, &probe); err != nil {
@@ -233,6 +233,7 @@ func C19(r *core.Run) {
 				Calls     []c19Call `json:"calls"`
 				Viol      []c19Viol `json:"viol"`
 				SizeExact bool      `json:"req_size_exact"`
+				Inconcl   string    `json:"inconclusive"`
 				Serial    int       `json:"req_serial_len"`
 				Fetched   int       `json:"fetched_len"`
 			}
@@ -247,9 +248,17 @@ func C19(r *core.Run) {
 			if rec.SizeExact {
 				exact++
 			}
+			if rec.Inconcl != "" {
+				r.Inconclusive("exchange " + rec.Ex + ": " + rec.Inconcl)
+			}
 			for _, c := range rec.Calls {
-				if c.Ep == "client" && c.Status == 504 {
-					got504++ // the designed 30 s wait
+				if c.Ep == "client" {
+					if c.Status == 504 {
+						got504++
+					}
+					if c.Ms > maxClientMs {
+						maxClientMs = c.Ms // includes waiting for the harness' agent: part of the designed wait
+					}
 				} else if c.Ms > maxMs {
 					maxMs = c.Ms
 				}
@@ -345,7 +354,7 @@ func C19(r *core.Run) {
 		r.Case(fmt.Sprintf("fault|%s|%s|req:%s|resp:%s|rules:%d", p.Endpoint, strings.Join(fs, "+"), c19SizeCls(p.ReqSize), c19SizeCls(p.RespSize), len(p.Rules)))
 		cs := map[string]interface{}{"plan": p.Plan, "failing_calls_at": p.Endpoint, "rules": p.Rules, "request_size": p.ReqSize, "response_size": p.RespSize}
 		for _, c := range p.Calls {
-			if c.Ms > maxMs && !c.Hung && !(c.Ep == "client" && c.Status == 504) {
+			if c.Ms > maxMs && !c.Hung && c.Ep != "client" && c.Ep != "pending" {
 				maxMs = c.Ms
 			}
 		}
@@ -408,7 +417,8 @@ func C19(r *core.Run) {
 	r.Set("fault_plans", nPlans)
 	r.Set("fault_plans_with_hanging_call", nHung)
 	r.Set("clients_answered_504", got504)
-	r.Set("slowest_call_outside_designed_waits_ms", int(maxMs))
+	r.Set("slowest_fetch_or_post_call_ms", int(maxMs))
+	r.Set("slowest_client_call_ms", int(maxClientMs))
 	r.Set("progress_bound_ms", T)
-	e3Finish(r, res, r.Pick(150, 3200))
+	e3Finish(r, res, r.Pick(150, 2600))
 }
